@@ -4,7 +4,7 @@ import TakVerif.Proofs.C06Zip
 namespace C06
 open Tak Tak.PN Spec.Game
 
-variable {S M : Type} (G : Game S M) (att : Color)
+variable {S M : Type} (G : Game S M) (att : Color) (root : S)
 
 theorem flip_ne {c : Color} (h : c = .white ∨ c = .black) : c.flip ≠ c := by
   rcases h with h | h <;> subst h <;> decide
@@ -213,10 +213,10 @@ theorem expandLoop_ok (halt : Alternating G) (hatt : att = .white ∨ att = .bla
 /-- the ordinary (non-PN²) path of `expand` on an unsolved, unexpanded focus -/
 theorem expand_normal_ok (halt : Alternating G) (hatt : att = .white ∨ att = .black) (hsb : SmallBranching G)
     (st st1 : St S M) (cur : S) (hs : List S)
-    (hz : ZipOK G att st) (hst : st.stack = cur :: hs) (hunexp : st.focus.expanded = false)
+    (hz : ZipOK G att root st) (hst : st.stack = cur :: hs) (hunexp : st.focus.expanded = false)
     (hphi : st.focus.phi ≠ 0) (hdelta : st.focus.delta ≠ 0)
     (hl : expandLoop G att st cur (G.moves cur) = some st1) (stats' : Stats) (an : Bool) :
-    ZipOK G att { st1 with stats := stats', anomaly := an, focus := { st1.focus with expanded := true } } := by
+    ZipOK G att root { st1 with stats := stats', anomaly := an, focus := { st1.focus with expanded := true } } := by
   obtain ⟨s, hs0, hst0, ht, hc⟩ := hz
   rw [hst] at hst0
   injection hst0 with e1 e2
@@ -248,9 +248,9 @@ theorem expand_normal_ok (halt : Alternating G) (hatt : att = .white ∨ att = .
       · exact Or.inr h8
     · intro h0; exact absurd h0 (by simp)
   · simp only [h2]
-    have hc' := CrumbsOK.mono G att st1.depthLimited _ _ _ _ _ hc
+    have hc' := CrumbsOK.mono G att root st1.depthLimited _ _ _ _ _ hc
     rw [← h6] at hc'
-    refine CrumbsOK.replace G att hc' ?_ ?_ ?_
+    refine CrumbsOK.replace G att root hc' ?_ ?_ ?_
     · simp [h1]
     · simp [h1]
     · intro _ hd; exact absurd hd hdelta
